@@ -133,6 +133,12 @@ func cmdTermCamp(args []string) {
 			os.MkdirAll(dir, 0755)
 			in := filepath.Join(dir, "in.y")
 			for it := range items {
+				mu.Lock()
+				enough := len(res.Anomalies) >= 10
+				mu.Unlock()
+				if enough { // ten confirmed hangs are witnesses enough: the rest of the queue is drained, not run
+					continue
+				}
 				os.WriteFile(in, it.data, 0644)
 				atomic.AddInt64(&ninputs, 1)
 				for _, mode := range termModes {
